@@ -60,8 +60,9 @@ def location(t, env):
 
 
 def interpret(effs, env, handler, limit=200000, on_segment=None):
-    """on_segment(env) is called where the executor re-reads local variables that a loop modifies: at the start of every
-    iteration and after the loop (terms in between are expressed over the values at that point)."""
+    """on_segment(env, loop effect) is called where the executor re-reads local variables that a loop modifies: at the start of
+    every iteration and after the loop (terms in between are expressed over the values at that point; derived induction variables
+    of that loop are the exception, see PolyState.segment)."""
     count = [0]
 
     def cmp_(op, a, b):
@@ -84,7 +85,7 @@ def interpret(effs, env, handler, limit=200000, on_segment=None):
                     e2 = dict(env)
                     e2[x["var"]] = i
                     if on_segment:
-                        on_segment(e2)
+                        on_segment(e2, x)
                     try:
                         try:
                             go(x["body"], e2)
@@ -98,7 +99,7 @@ def interpret(effs, env, handler, limit=200000, on_segment=None):
                         raise
                     i += st
                 if on_segment:
-                    on_segment(env)
+                    on_segment(env, x)
             elif e == "while":
                 raise NotEvaluable("loop at line %s is not a counted loop" % x.get("l"))
             elif e == "if":
@@ -273,8 +274,11 @@ class PolyState(Memory):
             self.ncalls += 1
             self.calls[r] = ("draw", r, self.ncalls)
 
-    def segment(self, env=None):
-        self.snap = dict(self.live)
+    def segment(self, env=None, loop=None):
+        """the locals a loop re-reads at this point.  A *derived* variable of the loop (a closed form of its induction variable) is
+        expressed over the value it had when the loop was entered, not over its value at this iteration: it keeps its snapshot."""
+        keep = set((loop or {}).get("derived") or ())
+        self.snap = {k: (self.snap[k] if k[1] in keep and k in self.snap else v) for k, v in self.live.items()}
 
     def write(self, loc, val):
         Memory.write(self, self.alias(loc) if self.alias else loc, val)
